@@ -546,7 +546,48 @@ def sequence(ctx, length):
     ctx.count('sequences_completed')
 
 
+def run_bins_direct(ctx):
+    """bin_time on a fresh temporal dataset with bins that are not contiguous runs of the time axis (interleaved, with
+    gaps, listed in any order): a bin averages exactly the time points it lists"""
+    rng = ctx.rng
+    n_obs, n_ch, n_t = int(rng.integers(1, 5)), int(rng.integers(1, 4)), int(rng.integers(3, 9))
+    tu = [int(v) for v in rng.permutation(n_t) + 1] if rng.integers(2) else list(range(1, n_t + 1))
+    m = np.array([[[1e4 * (o + 1) + 1e2 * (c + 1) + t for t in tu] for c in range(n_ch)] for o in range(n_obs)], dtype=float)
+    ds = TemporalDataset(m.reshape(n_obs, n_ch, n_t), obs_descriptors={'ouid': list(range(1, n_obs + 1))},
+                         channel_descriptors={'cuid': list(range(1, n_ch + 1))},
+                         time_descriptors={'time': np.array([t * 0.25 for t in tu])})
+    kind = gen.pick(rng, ['interleaved', 'gaps', 'random'])
+    pos = list(range(n_t))
+    if kind == 'interleaved':
+        idx_bins = [pos[0::2], pos[1::2]]
+    elif kind == 'gaps':
+        idx_bins = [[pos[0], pos[-1]], pos[1:-1]] if n_t >= 3 else [pos]
+    else:
+        perm = [int(i) for i in rng.permutation(n_t)]
+        cut = int(rng.integers(1, n_t))
+        idx_bins = [perm[:cut], perm[cut:]]
+    idx_bins = [b for b in idx_bins if b]
+    bins = [np.array([tu[i] * 0.25 for i in b]) for b in idx_bins]
+    sig = dict(op='bin_time', arg='direct_' + kind, temporal=True, shape='small')
+    wit = lambda **k: dict(time_uids=tu, bins=bins, **k)  # noqa: E731
+    ok, new = ctx.guarded('bin_time', sig, ds.bin_time, 'time', bins, data=wit)
+    if not ok:
+        return
+    ctx.case('bin_time', sig)
+    got = np.asarray(new.measurements)
+    for bi, b in enumerate(idx_bins):
+        tus = [tu[i] for i in b]
+        want = m.reshape(n_obs, n_ch, n_t)[:, :, b].mean(axis=2)
+        if got.shape != (n_obs, n_ch, len(idx_bins)) or not np.allclose(got[:, :, bi], want, rtol=1e-13, atol=1e-9) or \
+                abs(float(new.time_descriptors['time'][bi]) - float(np.mean(tus)) * 0.25) > 1e-12:
+            ctx.fail('bin_time', dict(sig, what='bin_mean'), f'bin {bi} (time uids {tus} of {tu}) is not the mean of exactly '
+                     f'its time points', wit())
+            return
+
+
 def run(ctx):
+    for _ in range(ctx.n(40, 200)):
+        run_bins_direct(ctx)
     n = ctx.n(200, 3000)
     length = 10 if ctx.tier == 'quick' else 20
     for it in range(n):
